@@ -54,6 +54,17 @@ def build(tier):
                                   get=lambda r, a=a, b=b: r['gup4'][a, b], group='gup4'))
             obs.append(Ob('gdet', rel['gdet'][0, 0, 0], st.gdet.trunc(0), S.pre,
                           get=lambda r: r['gdet'], group='gdet'))
+            # the same quantities requested FIRST on a fresh instance (the branches taken when the 4-metric is not cached yet)
+            for key_, want_ in (('gdet', st.gdet.trunc(0)),):
+                relf = S.run.symbolic_rel()
+                obs.append(Ob(f'{key_} (first request on a fresh instance)', relf[key_][0, 0, 0], want_, S.pre,
+                              get=lambda r, key_=key_: r[key_], meta=dict(fresh_rel=True), group=f'{key_} on a fresh instance'))
+            relf = S.run.symbolic_rel()
+            guf = relf['gup4']
+            for a in range(4):
+                for b in range(a, 4):
+                    obs.append(Ob(f'gup4[{a},{b}] (first request on a fresh instance)', guf[a, b, 0, 0, 0], gi0[a, b], S.pre,
+                                  get=lambda r, a=a, b=b: r['gup4'][a, b], meta=dict(fresh_rel=True), group='gup4 on a fresh instance'))
             Gam = rel['st_Gamma_udd4']
             for a, b, cc in itertools.product(range(4), repeat=3):
                 obs.append(Ob(f'st_Gamma_udd4[{a},{b},{cc}]', Gam[a, b, cc, 0, 0, 0],
